@@ -16,7 +16,8 @@
 (*   [ev |-> "out", k |-> "m", i]  ... the i-th unselected input, but its  *)
 (*                                 content has been changed (never accepted)*)
 (*   [ev |-> "end", fsok, mutated] the generator is exhausted              *)
-(* Bookkeeping steps of the machine (PollDone, DoneSel, Launch, EndInput)  *)
+(* Bookkeeping steps of the machine (PollDone, DoneSel, Launch, LaunchFail, *)
+(* Reap, EndInput)                                                         *)
 (* are silent; TLC searches all ways to interleave them.                   *)
 (***************************************************************************)
 EXTENDS Selective, IOUtils
@@ -58,7 +59,7 @@ TEnd == /\ More /\ Ev.ev = "end"
 TRerun == /\ More /\ Ev.ev = "rerun" /\ Ev.kind = xs.kind
           /\ (StartSecond \/ Abort)
           /\ Accept
-TSilent == /\ (PollDone \/ DoneSel \/ Launch \/ EndInput \/ EndFirstRun)
+TSilent == /\ (PollDone \/ DoneSel \/ Launch \/ LaunchFail \/ ReapAny \/ EndInput \/ EndFirstRun)
            /\ n' = n
 TRestart == /\ More /\ Ev.ev = "begin" /\ phase = "done"
             /\ pat' = Ev.pat /\ fan' = Ev.fan /\ own' = Ev.own /\ async' = Ev.async
